@@ -221,3 +221,25 @@ package daemon
 //@ for C03
 //@ # the teardown a DEL reports is that of the sandbox's own pod: the UID recorded at ADD time, when the record has one
 //@ guard call Manager.Release in ReleaseIP: oldRes.PodInfo == nil || oldRes.PodInfo.PodUID == "" || arg1.PodUID == oldRes.PodInfo.PodUID
+
+//@ for C04 C05 C09
+//@ # ---- helpers that decode a stored record: they neither drop nor substitute what the record holds ----
+//@ # a repeated ADD is pinned to the interface and addresses of the pod's record, whatever else the record lacks
+//@ func extractIPs
+//@   panics
+//@   modifies nothing
+//@   ensures result2 == old.ENIID
+//@   ensures result0 == parseAddr(old.IPv4) && result1 == parseAddr(old.IPv6)
+//@ func setRequest
+//@   requires req != nil
+//@   panics
+//@   modifies eni.LocalIPRequest.IPv4, eni.LocalIPRequest.IPv6, eni.LocalIPRequest.NetworkInterfaceID
+//@   ensures req.NetworkInterfaceID == old.ENIID && req.IPv4 == parseAddr(old.IPv4) && req.IPv6 == parseAddr(old.IPv6)
+//@ # every address record (single or dual stack, whatever parses) yields a resource to hand back to the pool, on the
+//@ # record's interface and with the record's addresses
+//@ func parseNetworkResource
+//@   panics
+//@   ensures item.Type == "eniIp" || item.Type == "eni" ==> result != nil && isptr(result, eni.LocalIPResource)
+//@   ensures item.Type == "eniIp" || item.Type == "eni" ==> asptr(result, eni.LocalIPResource).ENI.ID == item.ENIID && asptr(result, eni.LocalIPResource).ENI.MAC == item.ENIMAC
+//@   ensures (item.Type == "eniIp" || item.Type == "eni") && item.IPv4 != "" ==> asptr(result, eni.LocalIPResource).IP.IPv4 == parseAddr(item.IPv4)
+//@   ensures (item.Type == "eniIp" || item.Type == "eni") && item.IPv6 != "" ==> asptr(result, eni.LocalIPResource).IP.IPv6 == parseAddr(item.IPv6)
